@@ -1,0 +1,18 @@
+//go:build verif
+
+package mod
+
+import "sort"
+
+// VerifRegistered returns the ids of the task instances the executor currently
+// has registered in its cancel map (read-only; for the external verification
+// harness, build tag "verif").
+func (e *DefExecutor) VerifRegistered() []string {
+	var ids []string
+	e.cancelMap.Range(func(k, _ interface{}) bool {
+		ids = append(ids, k.(string))
+		return true
+	})
+	sort.Strings(ids)
+	return ids
+}
